@@ -357,7 +357,7 @@ func (f *frame) execInstr(b *ssa.BasicBlock, instr ssa.Instruction, st *State) {
 	switch in := instr.(type) {
 	case *ssa.DebugRef:
 		if id, ok := in.Expr.(*ast.Ident); ok {
-			if _, isVar := in.Object().(*types.Var); isVar {
+			if ov, isVar := in.Object().(*types.Var); isVar && !ov.IsField() { // go/ssa also emits a DebugRef for the Sel of x.f: a field is not a local
 				defer func() { recover() }() // names are best effort
 				v := f.val(in.X)
 				if in.IsAddr {
